@@ -38,8 +38,8 @@ CLAIMS = {
   note="Same trusted base as C03. Two operations that splice configured flag names into the SQL text (AddFlagsToAllMailboxes / AddPermFlagsToAllMailboxes) are outside the claim. Undecided: equivalence with a relational model (needs SQL semantics), transactions.",
   ref="DESIGN.md §4 C08"),
  "C12": dict(
-  text="Deductive proof for the rfc822 layer on arbitrary bytes: Split cuts at one index; the header parser terminates, never indexes out of range, and returns entries that lie inside the header, are ordered and tile it; NewHeader terminates; the multipart scanner terminates and every part it reports lies inside the data at the recorded offset; Section accessors are adjacent slices of the literal; parse builds a well-formed Section; Section.load gives every section children that lie inside the body of their parent (positions compared in the shared backing array, also through embedded message/rfc822), and its recursion strictly decreases the section length.",
-  note="Assumes bytes.Index/Trim specs. Stack depth of the recursion is bounded by the input length only (measured: 10^6 nested message/rfc822 levels, the 30 MB literal limit, run within the default stack). Undecided: Children/Part/Walk drivers, rfc5322 address/date parsers, balanced parentheses of ENVELOPE/BODYSTRUCTURE output, structure = MIME tree.",
+  text="Deductive proof for the rfc822 layer on arbitrary bytes: Split cuts at one index; the header parser terminates, never indexes out of range, and returns entries that lie inside the header, are ordered and tile it; NewHeader terminates; the multipart scanner terminates and every part it reports lies inside the data at the recorded offset; Section accessors are adjacent slices of the literal; parse builds a well-formed Section; Section.load gives every section children that lie inside the body of their parent (positions compared in the shared backing array, also through embedded message/rfc822), and its recursion strictly decreases the section length. The texts of ENVELOPE, BODY and BODYSTRUCTURE are balanced parenthesised lists: a ghost depth per list writer (one up for '(', one down for ')') is proved unchanged by every item writer (strings, numbers, maps, address lists, disposition), by envelope and - when they succeed - by the three mutually recursive walkers over the section tree, whose recursion is proved to descend ((section length, rank) decreases lexicographically; section position fields and section slices are proved never to be assigned after construction); Structure closes exactly the group it opened. ScanAll reports every part readToBoundary delivers.",
+  note="Assumes bytes.Index/Trim specs. Stack depth of the recursion is bounded by the input length only (measured: 10^6 nested message/rfc822 levels, the 30 MB literal limit, run within the default stack). Assumed: what writeString writes (NIL, numbers, strconv.Quote'd strings) contains no structural parenthesis - the quoting itself is not verified; Header/Section accessors used by the writers are trusted (no effect on the writers). Undecided: Part/Walk drivers, rfc5322 address/date parsers, balanced parentheses of ENVELOPE/BODYSTRUCTURE output, structure = MIME tree.",
   ref="DESIGN.md §4 C12"),
  "C13": dict(
   text="Deductive proof on the slicing layer of FETCH: a partial <o.n> is exactly literal[o : min(o+n, len)] (empty beyond the end) with no overflow for 32-bit offsets/counts; Header()/Body()/Literal() of a section are adjacent slices (BODY[HEADER]++BODY[TEXT] = BODY[]); header entries tile the header (no byte lost between HEADER.FIELDS and HEADER.FIELDS.NOT at the entry level); multipart parts start at their recorded offset. Two genuine defects found this way were repaired (empty-valued header field; truncated last part).",
@@ -70,7 +70,7 @@ CLAIMS = {
   note="strings.EqualFold/ToLower/HasPrefix are uninterpreted functions (foldEq, lower, hasPrefix); stateDBWrite is trusted to start exactly one transaction; closure bodies passed to stateDBWrite are outside these guard contracts (nocallbacks), callee preconditions after the guard are not checked in the guard-only contracts. NOT decided: the hierarchy/subscription reference model over command sequences, LIST/LSUB pattern matching (regular-expression translation in match.go: regexp is outside the verifier), \\Noselect, connector-driven mailbox updates.",
   ref="DESIGN.md §4 C14"),
  "C20": dict(
-  text="Deductive proof of the client-protection clauses of the recovery mailbox, for every name: it cannot be created (State.Create), deleted (State.Delete), renamed from or onto (State.Rename), appended to (State.AppendOnlyMailbox) or be the destination of COPY / MOVE (Mailbox.Copy / Mailbox.Move): each returns an error (ErrOperationNotAllowed) before any write transaction is started. The hash set that makes recovery 'once per distinct message' is proved consistent: Insert remembers id and hash together or changes nothing; Erase forgets the ids and, for every id it forgets, its hash (so the same bytes can be recovered again once the earlier copy has left).",
+  text="Deductive proof of the client-protection clauses of the recovery mailbox, for every name: it cannot be created (State.Create), deleted (State.Delete), renamed from or onto (State.Rename), appended to (State.AppendOnlyMailbox) or be the destination of COPY / MOVE (Mailbox.Copy / Mailbox.Move): each returns an error (ErrOperationNotAllowed) before any write transaction is started. The hash set that makes recovery 'once per distinct message' is proved consistent: Insert remembers id and hash together or changes nothing; Erase forgets the ids and, for every id it forgets, its hash (so the same bytes can be recovered again once the earlier copy has left). The fall-back insertion (actionCreateRecoveredMessage) still hands the literal to the store when the de-duplication hash itself fails, and writes the row only for stored bytes.",
   note="Same assumptions as C14. NOT decided: 'answered OK implies stored under the announced UID', the fall-back insertion into the recovery mailbox for every remote failure pattern, once-per-distinct-message (hash set), listing exactly while non-empty, copy/move out of the recovery mailbox.",
   ref="DESIGN.md §4 C20"),
 }
